@@ -5,6 +5,7 @@ import SodiumModel.Spec.Salsa
 import SodiumModel.Spec.Poly1305
 import SodiumModel.Spec.Gcm
 import SodiumModel.Spec.Aegis
+import SodiumModel.Model.AegisRef
 import SodiumModel.Spec.Curve25519
 import SodiumModel.Model.Scalarmult
 namespace Sodium.Driver.C01
@@ -32,10 +33,23 @@ def gcmDec (wantM : Bool) (c tag ad n k : Bytes) : DecResult :=
   | some m => ⟨0, c.length, if wantM then some m else none⟩
   | none => ⟨-1, 0, if wantM then some (List.replicate c.length 0xd0) else none⟩
 
+/-- AEGIS goes through the C-structured model `Model/AegisRef.lean` over the SoftAesBlock backend
+    (software AES round of softaes.c); `Properties/C01Aegis.lean` proves it equal to `Spec.Aegis`. -/
+def aegisEnc (is256 : Bool) (m ad n k : Bytes) : String :=
+  let r := if is256 then AegisRef.crypto_aead_encrypt_detached (AegisRef.A256.variant AegisRef.soft) m ad n k
+           else AegisRef.crypto_aead_encrypt_detached (AegisRef.A128L.variant AegisRef.soft) m ad n k
+  match r with
+  | .misuse => "misuse"
+  | .done ret c mac _ => (if ret != 0 then s!"RC={i32s ret} " else "") ++ s!"{toHex c} {toHex mac}"
+
 def aegisDec (is256 wantM : Bool) (c tag ad n k : Bytes) : DecResult :=
-  match (if is256 then Aegis.aegis256_decrypt k n ad c tag else Aegis.aegis128l_decrypt k n ad c tag) with
-  | some m => ⟨0, c.length, if wantM then some m else none⟩
-  | none => ⟨-1, 0, if wantM then some (zeros c.length) else none⟩
+  let r := if is256 then AegisRef.crypto_aead_decrypt_detached (AegisRef.A256.variant AegisRef.soft) wantM c tag ad n k
+           else AegisRef.crypto_aead_decrypt_detached (AegisRef.A128L.variant AegisRef.soft) wantM c tag ad n k
+  ⟨r.1, if r.1 = 0 then c.length else 0, r.2⟩
+
+def aegisDecC (is256 wantM : Bool) (cm ad n k : Bytes) : DecResult :=
+  if is256 then AegisRef.crypto_aead_decrypt (AegisRef.A256.variant AegisRef.soft) wantM cm ad n k
+  else AegisRef.crypto_aead_decrypt (AegisRef.A128L.variant AegisRef.soft) wantM cm ad n k
 
 def naclLine : NaclResult → String
   | .err => "-1"
@@ -53,9 +67,9 @@ def handle (op : String) (args : List String) : Option String :=
   | "aead.aes256gcm.enc", [m, ad, n, k] => do
     let r := Gcm.encrypt (← ofHex k) (← ofHex n) (← ofHex ad) (← ofHex m); some s!"{toHex r.1} {toHex r.2}"
   | "aead.aegis128l.enc", [m, ad, n, k] => do
-    let r := Aegis.aegis128l_encrypt (← ofHex k) (← ofHex n) (← ofHex ad) (← ofHex m); some s!"{toHex r.1} {toHex r.2}"
+    some (aegisEnc false (← ofHex m) (← ofHex ad) (← ofHex n) (← ofHex k))
   | "aead.aegis256.enc", [m, ad, n, k] => do
-    let r := Aegis.aegis256_encrypt (← ofHex k) (← ofHex n) (← ofHex ad) (← ofHex m); some s!"{toHex r.1} {toHex r.2}"
+    some (aegisEnc true (← ofHex m) (← ofHex ad) (← ofHex n) (← ofHex k))
   | "aead.chachapoly.dec", [w, c, mac, ad, n, k] => do
     let c ← ofHex c; some (decLine c.length (decryptDetached pOrig .orig (w == "1") c (← ofHex mac) (← ofHex ad) (← ofHex n) (← ofHex k)))
   | "aead.chachapoly_ietf.dec", [w, c, mac, ad, n, k] => do
@@ -80,12 +94,10 @@ def handle (op : String) (args : List String) : Option String :=
     some (decLine (cm.length - 16) (gcmDec (w == "1") (cm.take (cm.length - 16)) (cm.drop (cm.length - 16)) (← ofHex ad) (← ofHex n) (← ofHex k)))
   | "aead.aegis128l.decc", [w, cm, ad, n, k] => do
     let cm ← ofHex cm
-    if cm.length < 32 then some (decLine 0 ⟨-1, 0, none⟩) else
-    some (decLine (cm.length - 32) (aegisDec false (w == "1") (cm.take (cm.length - 32)) (cm.drop (cm.length - 32)) (← ofHex ad) (← ofHex n) (← ofHex k)))
+    some (decLine (cm.length - 32) (aegisDecC false (w == "1") cm (← ofHex ad) (← ofHex n) (← ofHex k)))
   | "aead.aegis256.decc", [w, cm, ad, n, k] => do
     let cm ← ofHex cm
-    if cm.length < 32 then some (decLine 0 ⟨-1, 0, none⟩) else
-    some (decLine (cm.length - 32) (aegisDec true (w == "1") (cm.take (cm.length - 32)) (cm.drop (cm.length - 32)) (← ofHex ad) (← ofHex n) (← ofHex k)))
+    some (decLine (cm.length - 32) (aegisDecC true (w == "1") cm (← ofHex ad) (← ofHex n) (← ofHex k)))
   | "secretbox.xsalsa.enc", [m, n, k] => do
     let r := secretboxDetached pSalsa (← ofHex m) (← ofHex n) (← ofHex k); some s!"{toHex r.1} {toHex r.2}"
   | "secretbox.xchacha.enc", [m, n, k] => do
